@@ -1278,8 +1278,14 @@ class Judge:
                                          f'{what}: text outside the addressed statement(s) changed in {rel}: original statement(s) #{i}..{j - 1} '
                                          f'{"".join(old[i:j])!r} became {txt!r}; allowed to change: {sorted(allowed.get(rel, ()))}\n{self.show_diff(before_texts, after)}')
                     touched_old.extend(old[i:j])
+                    keepers = [k for k in range(i, j) if k not in allowed.get(rel, ())]
                     if i == j:
                         cur.append(txt)
+                    elif is_rm and keepers:
+                        # a removed statement took white space of its neighbours along: the text that is left belongs to the
+                        # surviving statement (its index must stay valid for the following steps)
+                        cur[i:j] = [''] * (j - i)
+                        cur[keepers[-1]] = txt
                     else:
                         cur[i:j] = [txt] + [''] * (j - i - 1)
                 new_stmts[rel] = cur
